@@ -187,7 +187,27 @@ def r02d(ctx):
     if not inits or any(a.value.value is not False for a in inits):
         ctx.violation("R02d", f.file, "main", inits[0] if inits else fn, f"{var} initial value",
                       f"{var} is not initialised to False before the output modes")
-    ctx.floor("R02d", len(sets), 3, "output modes setting the status flag")
+    ctx.floor("R02d", len(sets), 2, "output modes setting the status flag")
+    # every output mode (edit list / digest / full diff) sets the flag
+    chain = next((i for i in walk_no_nested(fn) if isinstance(i, ast.If) and "args.only_edits" in ast.unparse(i.test)), None)
+    if chain is None:
+        ctx.inconclusive("R02d", f.file, "main", fn, "output modes", "the only_edits / edit_digest / full-diff chain was not found")
+    else:
+        arms = [("--only-edits", chain.body)]
+        rest = chain.orelse
+        if len(rest) == 1 and isinstance(rest[0], ast.If) and "args.edit_digest" in ast.unparse(rest[0].test):
+            arms.append(("--edit-digest", rest[0].body))
+            arms.append(("full diff", rest[0].orelse))
+        else:
+            arms.append(("other modes", rest))
+        for label, body in arms:
+            has = any(isinstance(a, ast.Assign) and isinstance(a.targets[0], ast.Name) and a.targets[0].id == var
+                      for s_ in body for a in ast.walk(s_))
+            if has:
+                ctx.proved("R02d", f.file, "main", body[0] if body else chain, f"mode {label} sets {var}", f"the {label} mode assigns {var}")
+            else:
+                ctx.violation("R02d", f.file, "main", body[0] if body else chain, f"mode {label} sets {var}",
+                              f"the {label} output mode never assigns {var}: differences found in that mode still exit with status 0")
     for a in sets:
         txt = ast.unparse(a.value).replace(" ", "")
         mode = "full diff" if "dfs()" in txt else "edit list / digest"
